@@ -18,7 +18,7 @@ let c9_show_node = function
 let c9_stage = function
   | EClap -> "EClap" | ETier -> "ETier" | EPrivate -> "EPrivate" | EGlob -> "EGlob" | EInput -> "EInput"
   | ESymlinkRoot -> "ESymlinkRoot" | EWalk -> "EWalk" | ENameExtract -> "ENameExtract"
-  | ENameDecode -> "ENameDecode" | EInternal -> "EInternal" | EZero -> "EZero" | EUneven -> "EUneven"
+  | ENameDecode -> "ENameDecode" | ENameInvalid -> "ENameInvalid" | EInternal -> "EInternal" | EZero -> "EZero" | EUneven -> "EUneven"
   | ESmall -> "ESmall" | EExists -> "EExists" | ETooLarge -> "ETooLarge" | ERead -> "ERead"
   | ESerialize -> "ESerialize" | EOpen -> "EOpen" | EWriteIO -> "EWriteIO" | EStdout -> "EStdout"
   | EPost -> "EPost"
